@@ -301,6 +301,8 @@ class Spec:
         self.sep = " "
         self.indent = ""
         self.trail = ""
+        self.id_indent = ""
+        self.id_trail = ""
         self.eol = "\n"
         self.final_eol = True
         self.extra_blank_lines = 0
@@ -308,7 +310,9 @@ class Spec:
         self.n_blank = 0
 
     def header_lines(self):
-        return [self.grid_id, self.counts, self.sn, self.we, self.z]
+        # the id line carries its own leading / trailing blanks (a header indented as a block, trailing spaces or tabs):
+        # the grid id is the line without the surrounding whitespace
+        return [self.id_indent + self.grid_id + self.id_trail, self.counts, self.sn, self.we, self.z]
 
     def join(self, toks, rng=None):
         return self.indent + self.sep.join(toks) + self.trail
@@ -403,6 +407,12 @@ def random_spec(rng, dtype="float64", shape=None, blanks=None, small=False, plai
     if not plain:
         sp.sep = str(rng.choice([" ", " ", "  ", "\t", " \t ", "      "]))
         sp.indent = str(rng.choice(["", "", " ", "        ", "\t"]))
+        how = rng.random()
+        if how < 0.35:  # the whole header block indented like the other lines
+            sp.id_indent = sp.indent or str(rng.choice([" ", "    ", "\t"]))
+        elif how < 0.55:
+            sp.id_indent = str(rng.choice([" ", "        ", "\t", " \t ", "\t\t"]))
+        sp.id_trail = str(rng.choice(["", "", "", " ", "   ", "\t", " \t"]))
         sp.trail = str(rng.choice(["", "", " ", "  \t"]))
         sp.eol = str(rng.choice(["\n", "\n", "\n", "\r\n"]))
         sp.final_eol = bool(rng.random() < 0.8)
